@@ -310,5 +310,31 @@ theorem close_during_add_leaks :
 example : (run .close (run (.add [47, 102]) raceW)).s.openFds = [] ∧
     (run (.add [47, 102]) (run .close raceW)).s.openFds = [] := by decide +kernel
 
+/-!
+### … and two `addWatch` of one path at once (finding F17)
+
+The caller's `addWatch(p)` has passed the "already watching?" test and opened `p` (`openNew`); the reader's
+`dirChange` → `internalWatch` runs a whole `addWatch(p)` of its own (it, too, finds `p` unwatched and opens it);
+then the caller finishes (`finishAdd`). Both descriptors are open and in the wd table, the path table knows one
+of them — and `Close`, which walks the path table, releases only that one. Same in the implementation (race
+sessions of the kq stage: `Add(d0)` with an entry created or removed before its third system call).
+-/
+def addTwice (p : Path) (w : W) : Option W :=
+  match openNew (clean p) {} true w with
+  | (.ok (n, i, a), w1) =>
+    let w2 := (addWatch fuel p noteAllEvents true w1).2
+    some (finishAdd (watchDirectoryFiles (addWatch fuel)) n i a noteAllEvents w2).2
+  | _ => none
+
+def twiceW : W :=
+  { tape := [.lstat [47, 102] (.ok .file), .opn [47, 102] (.ok 3), .lstat [47, 102] (.ok .file), .opn [47, 102] (.ok 4)] }
+
+/-- descriptors 3 and 4 are open and in the wd table, the path table points at 3; after `Close` descriptor 4 is
+still open -/
+theorem add_twice_leaks :
+    (addTwice [47, 102] twiceW).map
+        (fun w => (w.s.openFds, w.s.wd.map (·.1), w.s.path.map (·.2), (run .close w).s.openFds, w.bad)) =
+      some ([4, 3], [4, 3], [3], [4], none) := by decide +kernel
+
 end Full
 end C17
